@@ -60,7 +60,8 @@ type c18Cfg struct {
 	Tags   []string          `dials:"ztags"`
 	Nums   []int             `dials:"znums"`
 	Labels map[string]string `dials:"zlabels"`
-	DB     c18DB             `dials:"zdb"`
+	// (a pointer to a struct with a non-nil default: every re-stack starts from a copy of it, not from it)
+	DB     *c18DB            `dials:"zdb"`
 	// a set: ez lets the file spell it as a list (Params.DisableAutoSetToSlice is off)
 	Blocked map[string]struct{} `dials:"zblocked"`
 	Need    string              `dials:"zneed"`
@@ -198,7 +199,7 @@ func (l c18Layer) apply(c *c18Cfg) {
 
 // c18Merge is the harness's own reference: last layer that sets a leaf wins
 func c18Merge(rec *c18Rec, layers ...c18Layer) *c18Cfg {
-	c := &c18Cfg{rec: rec}
+	c := &c18Cfg{rec: rec, DB: &c18DB{}}
 	for _, l := range layers {
 		if l != nil {
 			l.apply(c)
@@ -215,7 +216,12 @@ func c18Value(r *RNG, leaf, layer, n int) any {
 	empty := layer != lDefault && r.Chance(22)
 	switch lf.kind {
 	case "string":
-		return lf.key[len(lf.key)-1][1:] + "-" + tag
+		v := lf.key[len(lf.key)-1][1:] + "-" + tag
+		if r.Chance(30) {
+			// base64 padding, key=value lists, query strings: the separator of `NAME=value` inside the value
+			v += []string{"==", "=", "=x=y", "?a=1&b=2", " k=v"}[r.Intn(5)]
+		}
+		return v
 	case "int":
 		v := 1000*(leaf+1) + 100*layer + n
 		if r.Chance(6) {
@@ -559,7 +565,7 @@ func runC18(c *Ctx) {
 			res.Rule = rule0 // C09 borrows a slice of this stream (ez's use of the delay / suppress options)
 		}
 	}()
-	res.Rule = "each case (own PRNG stream derived from seed and case index, so a single case replays alone): one config type (14 leaves: string/int/float/bool/uint16/int64/[]string/[]int/map/nested struct, the validity leaf zneed, the path leaf zpath); " +
+	res.Rule = "each case (own PRNG stream derived from seed and case index, so a single case replays alone): one config type (14 leaves: string/int/float/bool/uint16/int64/[]string/[]int/map/a nested section behind a POINTER with a non-nil default, the validity leaf zneed, the path leaf zpath; 30% of the string values contain '='); " +
 		"every leaf is assigned to a random subset of {default, file, environment, flag} with a distinct value per layer - for the collection leaves an explicitly EMPTY collection (file: [] / {}, environment and flags: empty text) in 22% of the assignments above the defaults; flags come from flag.NewSetWithArgs, from a flag.Set over a FlagSet on which the application pre-registered a random subset of the scalar flags, or from a flag.Set over a FlagSet an earlier ez call already registered all flags on; the path leaf gets a different existing file per layer " +
 		"(the file layer's own zpath names a decoy), every file other than the one ConfigPath(defaults+env+flags) names carries foreign values for all leaves; " +
 		"formats yaml/json/toml/cue x entry points {<Format>ConfigEnvFlag, ConfigFileEnvFlag, ConfigFileEnvFlagDecoderFactoryParams, FileExtensionDecoderConfigEnvFlag} x WatchConfigFile on/off; " +
@@ -1352,6 +1358,11 @@ func c18DiffLeaves(exp, got *c18Cfg, layers [4]c18Layer) string {
 func c18Project(c *c18Cfg, li int) string {
 	if c == nil {
 		return "nil"
+	}
+	if c.DB == nil {
+		cp := *c
+		cp.DB = &c18DB{}
+		c = &cp
 	}
 	var v any
 	switch li {
